@@ -4,6 +4,10 @@
 //! side of that contract on the real manager: whatever sequence of gossip messages arrives, the
 //! recorded incarnation of a member never decreases and a known member never vanishes.
 //!
+//! The node's record of ITS OWN incarnation is an atomic that is only visible in what it announces: every
+//! refutation (`Alive{me, incarnation}`) the manager broadcasts is captured on a connected peer channel and
+//! must carry a strictly higher incarnation than the previous one (C17.manager.self_incarnation_monotone).
+//!
 //! Domain (quick): every sequence of <= 3 messages over an alphabet of
 //!   Sync{sender in {a,b}, states = subsets (size <= 2) of {a@inc0, a@inc2, b@inc1, c@inc1 Failed}, sender_time in {0, 7}},
 //!   Suspect{reporter a, suspect in {a,b,me}, incarnation in {0,2}}, Alive{node in {a,b}, incarnation in {0,1,3}}
@@ -13,7 +17,7 @@ use serde_json::{json, Value};
 use std::sync::Arc;
 use tensor_chain::gossip::{GossipConfig, GossipMembershipManager, GossipMessage, GossipNodeState};
 use tensor_chain::membership::NodeHealth;
-use tensor_chain::network::MemoryTransport;
+use tensor_chain::network::{MemoryTransport, Message};
 
 fn st(node: &str, health: NodeHealth, ts: u64, inc: u64) -> GossipNodeState {
     GossipNodeState::new(node.to_string(), health, ts, inc)
@@ -63,14 +67,41 @@ fn view(mgr: &GossipMembershipManager) -> Vec<(String, u64)> {
     v
 }
 
-/// run a sequence; returns Err(detail) at the first step that lowers an incarnation / drops a member / panics
-fn run_seq(seq: &[Value]) -> Result<(), String> {
-    let mgr = GossipMembershipManager::new("me".to_string(), GossipConfig::default(), Arc::new(MemoryTransport::new("me".to_string())));
+/// run a sequence; returns (view result, self-announcement result): Err(detail) at the first step that lowers an
+/// incarnation / drops a member / panics, resp. at the first refutation that does not raise the announced incarnation
+fn run_seq(seq: &[Value]) -> (Result<(), String>, Result<(), String>) {
+    let rt = tokio::runtime::Handle::current();
+    let transport = Arc::new(MemoryTransport::new("me".to_string()));
+    let (tx, mut wire) = tokio::sync::mpsc::channel::<(String, Message)>(256);
+    transport.connect_to("w".to_string(), tx);
+    let mgr = GossipMembershipManager::new("me".to_string(), GossipConfig::default(), transport);
+    mgr.add_peer("w".to_string());      // a gossip target, so that refutations are actually sent
     let mut before = view(&mgr);
+    let mut announced: Vec<u64> = vec![];
+    let mut self_res: Result<(), String> = Ok(());
     for (i, m) in seq.iter().enumerate() {
         let msg = to_msg(m);
         let r = no_panic(std::panic::AssertUnwindSafe(|| mgr.handle_gossip(msg)));
-        if let Err(p) = r { return Err(format!("step {i} {m}: handle_gossip panicked: {p}")); }
+        if let Err(p) = r { return (Err(format!("step {i} {m}: handle_gossip panicked: {p}")), self_res); }
+        // let the broadcast tasks spawned by this message run, then collect what `me` announced about itself
+        let mut got: Vec<(String, Message)> = vec![];
+        if m["k"] == "suspect" && m["suspect"] == "me" {
+            // a refutation is owed: wait for it (bounded), it is sent by a spawned task
+            if let Ok(Some(x)) = rt.block_on(async { tokio::time::timeout(std::time::Duration::from_millis(500), wire.recv()).await }) { got.push(x); }
+        }
+        while let Ok(x) = wire.try_recv() { got.push(x); }
+        for (_, wm) in got {
+            if let Message::Gossip(GossipMessage::Alive { node_id, incarnation }) = wm {
+                if node_id == "me" {
+                    if let Some(last) = announced.last() {
+                        if incarnation <= *last && self_res.is_ok() {
+                            self_res = Err(format!("step {i} {m}: the node announced its own incarnation {incarnation} after having announced {last} (announcements so far {announced:?})"));
+                        }
+                    }
+                    announced.push(incarnation);
+                }
+            }
+        }
         let after = view(&mgr);
         // a Sync must leave every delivered member at an incarnation at least as high as the delivered one
         // (merge adopts a state unless something at least as new is stored) — otherwise two nodes that
@@ -83,25 +114,25 @@ fn run_seq(seq: &[Value]) -> Result<(), String> {
                 if x.incarnation > had.saturating_add(delta) { continue; } // filtered as an implausible jump
                 match after.iter().find(|(n, _)| *n == x.node_id) {
                     Some((_, inc2)) if *inc2 >= x.incarnation => {},
-                    other => return Err(format!("step {i} {m}: delivered state {}@inc{} but the view records {:?}", x.node_id, x.incarnation, other)),
+                    other => return (Err(format!("step {i} {m}: delivered state {}@inc{} but the view records {:?}", x.node_id, x.incarnation, other)), self_res),
                 }
             }
         }
         for (node, inc) in &before {
             match after.iter().find(|(n, _)| n == node) {
-                None => return Err(format!("step {i} {m}: member {node} vanished from the view")),
-                Some((_, inc2)) if inc2 < inc => return Err(format!("step {i} {m}: recorded incarnation of {node} moved backwards {inc} -> {inc2}")),
+                None => return (Err(format!("step {i} {m}: member {node} vanished from the view")), self_res),
+                Some((_, inc2)) if inc2 < inc => return (Err(format!("step {i} {m}: recorded incarnation of {node} moved backwards {inc} -> {inc2}")), self_res),
                 _ => {},
             }
         }
         before = after;
     }
-    Ok(())
+    (Ok(()), self_res)
 }
 
 pub fn run(tier: Tier, _seed: u64) -> Report {
-    // a refutation of a suspicion about the local node spawns a broadcast task: needs a runtime context (never driven)
-    let rt = tokio::runtime::Builder::new_current_thread().enable_all().build().expect("runtime");
+    // a refutation of a suspicion about the local node spawns a broadcast task: the runtime is driven after every message
+    let rt = tokio::runtime::Builder::new_multi_thread().worker_threads(1).enable_all().build().expect("runtime");
     let _guard = rt.enter();
     let maxlen = if tier == Tier::Thorough { 4 } else { 3 };
     let alpha = alphabet();
@@ -110,13 +141,18 @@ pub fn run(tier: Tier, _seed: u64) -> Report {
                  alpha.len(), if tier == Tier::Thorough { " (length 4 restricted to sequences whose first two messages are Sync)" } else { "" }),
         true, &["GossipMembershipManager::handle_gossip", "handle_sync", "handle_suspect", "handle_alive"]);
     rep.declare("C17.manager.incarnation_monotone", "GossipMembershipManager::handle_gossip");
+    rep.declare("C17.manager.self_incarnation_monotone", "GossipMembershipManager::handle_suspect");
     let mut seq: Vec<Value> = vec![];
     fn rec(rep: &mut Report, alpha: &[Value], seq: &mut Vec<Value>, maxlen: usize) {
         if !seq.is_empty() {
-            let r = run_seq(seq);
+            let (r, rs) = run_seq(seq);
             rep.eval(seq.iter().any(|m| m["k"] == "sync" && !m["states"].as_array().unwrap().is_empty()));
             let s2 = seq.clone();
             rep.check("C17.manager.incarnation_monotone", r.is_ok(), &|| json!({"msgs": s2}), &|| r.clone().err().unwrap_or_default());
+            if seq.iter().filter(|m| m["k"] == "suspect" && m["suspect"] == "me").count() >= 2 {
+                let s3 = seq.clone();
+                rep.check("C17.manager.self_incarnation_monotone", rs.is_ok(), &|| json!({"msgs": s3}), &|| rs.clone().err().unwrap_or_default());
+            }
         }
         if seq.len() == maxlen { return; }
         for m in alpha {
@@ -136,9 +172,10 @@ pub fn run(tier: Tier, _seed: u64) -> Report {
     rep
 }
 
-pub fn replay(_ob: &str, case: &Value) -> Result<String, String> {
-    let rt = tokio::runtime::Builder::new_current_thread().enable_all().build().expect("runtime");
+pub fn replay(ob: &str, case: &Value) -> Result<String, String> {
+    let rt = tokio::runtime::Builder::new_multi_thread().worker_threads(1).enable_all().build().expect("runtime");
     let _guard = rt.enter();
     let seq: Vec<Value> = case["msgs"].as_array().unwrap().clone();
-    run_seq(&seq).map(|()| "no incarnation moved backwards".to_string())
+    let (r, rs) = run_seq(&seq);
+    if ob == "C17.manager.self_incarnation_monotone" { rs } else { r }.map(|()| "no incarnation moved backwards".to_string())
 }
